@@ -853,3 +853,61 @@ Proof.
   - right. rewrite E2 in Ho, Hq. destruct (rdr_skip_container s) as [o s']. cbn [fst snd] in *. subst o.
     exists s'. split; [reflexivity|]. eapply st_okf_steq; eassumption.
 Qed.
+
+(* ---------- the whole run against the slice lexer, with the exact error position ---------- *)
+(* Under ANY schedule and a buffer fitting the pending data: the run is the lexer's run, or it
+   stops with E_Io exactly at the lexer's cursor after the tokens returned so far: the lexer's run
+   is those tokens followed by the lexer's run from that cursor. *)
+Theorem stream_run_fault_lexer : forall fuel s l c,
+  st_okf s (lx_data l) (lx_position l) c -> length (lx_data l) <= lx_orig l ->
+  fits_fuel fuel c (lx_data l) = true ->
+  stream_run fuel s = lex_run fuel l \/
+  exists pre l', stream_run fuel s = (pre, (Err E_Io, lx_position l')) /\
+                 lx_orig l' = lx_orig l /\ length (lx_data l') <= lx_orig l' /\
+                 lex_run fuel l = (pre ++ fst (lex_run (fuel - length pre) l'),
+                                   snd (lex_run (fuel - length pre) l')).
+Proof.
+  induction fuel as [|fuel IH]; intros s [d orig] c Hok Hwf Hfit; cbn [lx_data lx_orig] in *.
+  - left. cbn [stream_run lex_run]. destruct Hok as (_ & Hpos & _). rewrite Hpos. reflexivity.
+  - cbn [fits_fuel] in Hfit. apply andb_prop in Hfit as [Hfit Hrest].
+    destruct (bin_next_fault_lexer s d _ c Hok Hfit) as [(s' & En & Hok')|(s' & En & Hok')].
+    + right. exists [], (mklx d orig). cbn [stream_run]. rewrite En. cbn [recast length app lx_orig lx_data].
+      destruct Hok' as (_ & Hpos' & _). rewrite Hpos'. rewrite Nat.sub_0_r.
+      split; [reflexivity|]. split; [reflexivity|]. split; [exact Hwf|].
+      destruct (lex_run (S fuel) (mklx d orig)) as [a b]. reflexivity.
+    + cbn [stream_run lex_run]. rewrite En, next_res_lx.
+      unfold lx_position in *. cbn [lx_data lx_orig] in *.
+      destruct (read_token_total d) as [[t [r E]]|[E|E]].
+      * rewrite (next_res_ok _ _ _ E) in *. cbn [fst snd] in *. rewrite E in Hrest.
+        pose proof (read_token_len _ _ _ E) as L.
+        destruct (IH s' (mklx r orig) c) as [Eq|(pre & l' & E1 & Ho & Hl & E2)].
+        -- unfold lx_position. cbn [lx_data lx_orig].
+           replace (orig - length r) with (orig - length d + (length d - length r)) by lia. exact Hok'.
+        -- cbn [lx_data lx_orig]. lia.
+        -- exact Hrest.
+        -- left. rewrite Eq. reflexivity.
+        -- right. exists (t :: pre), l'. rewrite E1, E2. cbn [length Nat.sub app lx_orig] in *.
+           split; [reflexivity|]. split; [exact Ho|]. split; [exact Hl|reflexivity].
+      * left. rewrite (next_res_eof _ E) in *. cbn [fst snd] in *.
+        destruct Hok' as (_ & Hpos' & _). rewrite Hpos'. rewrite Nat.sub_diag, Nat.add_0_r.
+        destruct d; reflexivity.
+      * left. rewrite (next_res_rgb _ E) in *. cbn [fst snd] in *.
+        destruct Hok' as (_ & Hpos' & _). rewrite Hpos'. rewrite Nat.sub_diag, Nat.add_0_r. reflexivity.
+Qed.
+
+Corollary run_stream_fault_lexer input sch capv : fits capv input = true ->
+  run_stream capv sch input = run_lexer input \/
+  exists pre l', run_stream capv sch input = (pre, (Err E_Io, lx_position l')) /\
+                 lx_orig l' = length input /\ length (lx_data l') <= length input /\
+                 run_lexer input = (pre ++ fst (lex_run (S (length input) - length pre) l'),
+                                    snd (lex_run (S (length input) - length pre) l')).
+Proof.
+  intros Hfit. unfold run_stream, run_lexer, fits in *.
+  destruct (stream_run_fault_lexer (S (length input)) (rdr_new capv sch input) (lx_new input) capv)
+    as [E|(pre & l' & E1 & Ho & Hl & E2)].
+  - unfold st_okf, lx_new, lx_position, rdr_new, rdr_pending, rdr_position, bw_position. cbn. rewrite Nat.sub_diag. auto.
+  - cbn. lia.
+  - exact Hfit.
+  - left. exact E.
+  - right. exists pre, l'. cbn [lx_new lx_orig] in Ho. rewrite Ho in Hl. auto.
+Qed.
